@@ -6,21 +6,21 @@ import RaftWal.Proofs.FaultLemmasC4
 namespace RaftWal.Fault.C
 open RaftWal.Crash
 
-/-- commit, create, deletions: the three results -/
-theorem runActs_CR_dels (d : Disk) (wf : WriteFail) (m : Meta) (id b : Nat) (ids : List Nat) (k : Option Nat) :
-    runActs d wf ([.commit m, .create id b] ++ ids.map .delete) k = (d, some (.commit m), none) ∨
-    runActs d wf ([.commit m, .create id b] ++ ids.map .delete) k = (d.apply (.commit m), some (.create id b), none) ∨
-    ∃ (ids' : List Nat) (k' : Option Nat), (∀ j ∈ ids', j ∈ ids) ∧
-      runActs d wf ([.commit m, .create id b] ++ ids.map .delete) k =
-        (((d.apply (.commit m)).apply (.create id b)).applyAll (ids'.map .delete), none, k') := by
+/-- commit, create, deletions (any number of which may fail): the three results -/
+theorem runActs_CR_dels (d : Disk) (m : Meta) (id b : Nat) (ids : List Nat) (pl : Plan) :
+    (∃ pl', runActs d ([.commit m, .create id b] ++ ids.map .delete) pl = (d, some (.commit m), pl')) ∨
+    (∃ pl', runActs d ([.commit m, .create id b] ++ ids.map .delete) pl =
+      (d.apply (.commit m), some (.create id b), pl')) ∨
+    ∃ (ids' : List Nat) (pl' : Plan), (∀ j ∈ ids', j ∈ ids) ∧
+      runActs d ([.commit m, .create id b] ++ ids.map .delete) pl =
+        (((d.apply (.commit m)).apply (.create id b)).applyAll (ids'.map .delete), none, pl') := by
   simp only [List.cons_append, List.nil_append]
-  rcases k with _ | _ | _ | n
-  · obtain ⟨ids', k', h1, h2⟩ := runActs_deletes wf ids ((d.apply (.commit m)).apply (.create id b)) none
-    exact Or.inr (Or.inr ⟨ids', k', h1, by rw [runActs_cons_none, runActs_cons_none]; exact h2⟩)
-  · exact Or.inl (runActs_commit_zero _ _ _ _)
-  · exact Or.inr (Or.inl (by rw [runActs_cons_succ, runActs_create_zero]; rfl))
-  · obtain ⟨ids', k', h1, h2⟩ := runActs_deletes wf ids ((d.apply (.commit m)).apply (.create id b)) (some n)
-    exact Or.inr (Or.inr ⟨ids', k', h1, by rw [runActs_cons_succ, runActs_cons_succ]; exact h2⟩)
+  rcases plan_two pl with h | ⟨wf, pl', rfl⟩ | ⟨wf, pl', rfl⟩
+  · obtain ⟨pl'', e⟩ := runActs_two_ok d (.commit m) (.create id b) (ids.map .delete) pl h
+    obtain ⟨ids', q, h1, h2⟩ := runActs_deletes ids ((d.apply (.commit m)).apply (.create id b)) pl''
+    exact Or.inr (Or.inr ⟨ids', q, h1, by rw [e]; exact h2⟩)
+  · exact Or.inl ⟨pl', runActs_commit_fail _ _ _ _ _⟩
+  · exact Or.inr (Or.inl ⟨pl', by rw [runActs_cons_ok, runActs_create_fail]; rfl⟩)
 
 /-- the specification when the truncation point lies in the sealed segment `tk` -/
 theorem spec_sealed {d : Disk} {K0 D' : List Seg} {tk t : Seg} {f : File} (h : FR d (K0 ++ tk :: D') t f)
@@ -161,8 +161,8 @@ theorem dropped_ids_ne {d : Disk} {K0 D' : List Seg} {tk t : Seg} (hb : Base d (
 theorem caseB {d : Disk} {K0 D' : List Seg} {tk t : Seg} {f : File} (h : FR d (K0 ++ tk :: D') t f)
     {newMax : Nat} (hk : d.md.segs.filter (keptB newMax) = K0 ++ [tk])
     (hD : d.md.segs.filter (fun s => !keptB newMax s) = D' ++ [t]) (htb : tk.base ≤ newMax)
-    (hmin : tk.min ≤ newMax) (hdrop : ∀ s ∈ D' ++ [t], newMax < s.base) (k : Option Nat) (wf : WriteFail) :
-    Outcome { disk := d } (.delTail newMax) (runOp { disk := d } (.delTail newMax) k wf) := by
+    (hmin : tk.min ≤ newMax) (hdrop : ∀ s ∈ D' ++ [t], newMax < s.base) (pl : Plan) :
+    Outcome { disk := d } (.delTail newMax) (runOp { disk := d } (.delTail newMax) pl) := by
   have hb := h.base
   have hv : rlog d (K0 ++ tk :: D') t f = view { disk := d } := by rw [h.view_run]
   have hmax := max_of_drop hb hdrop
@@ -172,8 +172,8 @@ theorem caseB {d : Disk} {K0 D' : List Seg} {tk t : Seg} {f : File} (h : FR d (K
   have hnone : (d.apply (.commit ⟨d.md.nextID + 1, K0 ++ [sealSeg tk newMax] ++ [newSeg d.md.nextID (newMax + 1)],
       d.md.stable⟩)).file? (newSeg d.md.nextID (newMax + 1)).id = none := fresh_none hb
   have hacts := delTailActs_sealed h hk hD
-  rcases runActs_CR_dels d wf ⟨d.md.nextID + 1, K0 ++ [sealSeg tk newMax] ++ [newSeg d.md.nextID (newMax + 1)],
-      d.md.stable⟩ d.md.nextID (newMax + 1) (segIds (D' ++ [t])) k with hr | hr | ⟨ids', k', hsub, hr⟩
+  rcases runActs_CR_dels d ⟨d.md.nextID + 1, K0 ++ [sealSeg tk newMax] ++ [newSeg d.md.nextID (newMax + 1)],
+      d.md.stable⟩ d.md.nextID (newMax + 1) (segIds (D' ++ [t])) pl with ⟨pl', hr⟩ | ⟨pl', hr⟩ | ⟨ids', pl', hsub, hr⟩
   · exact out_err (by rw [hacts]; exact hr) rfl (Outcome.err h hv (Or.inr rfl) id)
   · refine out_stop (by rw [hacts]; exact hr) rfl
       (Outcome.stop (p := { disk := d }) h hv rfl (K0 ++ [sealSeg tk newMax]) (newMax + 1) ?_
